@@ -56,6 +56,12 @@ pub struct RunCtx {
     pub yields: [u64; 8],
     /// Set by the harness when the run's verdict is already decided and clients should stop.
     pub poisoned: bool,
+    /// Number of threads spawned through this runtime so far (shuttle task ids are handed out
+    /// sequentially: main = 0, then one per spawn).
+    pub spawned: u64,
+    /// shuttle task id -> ordinal of the spawn call that created it (recorded by the new task
+    /// itself when it starts; the ordinal is taken at the spawn call)
+    pub spawn_ordinal: BTreeMap<usize, u64>,
 }
 
 thread_local! {
@@ -99,6 +105,16 @@ pub fn take_last_yield() -> u8 {
 
 pub fn panicking_task() -> Option<usize> {
     PANICKING_TASK.with(|c| c.get())
+}
+
+pub fn spawned_count() -> u64 {
+    with_ctx(|c| c.spawned)
+}
+
+/// Ordinal of the spawn call that created `task` (None for the main task or a task that has not
+/// started running yet).
+pub fn spawn_ordinal_of(task: usize) -> Option<u64> {
+    with_ctx(|c| c.spawn_ordinal.get(&task).copied())
 }
 
 pub fn is_poisoned() -> bool {
@@ -275,7 +291,14 @@ pub mod thread {
             T: Send + 'static,
         {
             let name = self.name.clone().unwrap_or_else(|| "<unnamed>".to_string());
+            let ordinal = crate::with_ctx(|c| {
+                c.spawned += 1;
+                c.spawned
+            });
             let inner = self.inner.spawn(move || {
+                crate::with_ctx(|c| {
+                    c.spawn_ordinal.insert(crate::current_task(), ordinal);
+                });
                 let r = catch_unwind(AssertUnwindSafe(f));
                 if let Err(p) = &r {
                     crate::record_panic(&name, p.as_ref());
